@@ -178,6 +178,10 @@ def src(s):
         return "Peek(%s)" % src(s[1])
     if k == "pointer":
         return "Pointer(%d, %s)" % (s[1], src(s[2]))
+    if k == "bytesintctx":
+        return "BytesInteger((this.%s & 3) + 1, signed=%r, swapped=this.%s & 4)" % (s[1], s[2], s[1])
+    if k == "bitsintctx":
+        return "BitsInteger(((this.%s & 1) + 1) * 8, signed=%r, swapped=this.%s & 2)" % (s[1], s[2], s[1])
     if k == "pstring":
         return "PaddedString(%d, %r)" % (s[1], s[2])
     if k == "cstring":
@@ -210,6 +214,18 @@ def mk(C, source, extra=None):
         from symx.loader import wrap_instance_tables
         wrap_instance_tables(d)
     return d
+
+
+def warmup(d, n, patterns=None):
+    """use the instance once or twice on fixed concrete inputs before the symbolic run: a construct
+    carries no state from one call to the next, so this must not change anything that follows
+    (an instance that caches a size, a count or a buffer across calls shows up here)"""
+    for pat in (patterns or (bytes(n), bytes((i * 37 + 1) & 0xFF for i in range(n + 2)))):
+        try:
+            obj = d.parse(pat)
+            d.build(obj)
+        except Exception:
+            pass
 
 
 # ---------------------------------------------------------------------------------------------
@@ -303,6 +319,12 @@ def domain(ctx, s, name, tier="quick", wide=False, env=None):
         return domain(ctx, s[2], name, tier, wide, env)
     if k in ("nullterminated", "nullstripped"):
         return domain(ctx, s[1], name, tier, wide, env)
+    if k == "bytesintctx":
+        n = ctx.concretize(env[s[1]] % 4) + 1
+        return ctx.int(name, *rng(8 * n, s[2]))
+    if k == "bitsintctx":
+        n = (ctx.concretize(env[s[1]] % 2) + 1) * 8
+        return ctx.int(name, *rng(n, s[2]))
     if k in ("pstring", "cstring", "pascal", "greedystring"):
         enc = s[2] if k in ("pstring", "pascal") else s[1]
         ncp = s[-1]
@@ -394,7 +416,7 @@ def walk(s):
                     yield from walk(y[1])
 
 
-_KINDS = set("""pstring cstring pascal greedystring fmt float bytesint bitsint varint zigzag flag pass bytes bytesctx greedybytes const constv computed tell
+_KINDS = set("""bytesintctx bitsintctx pstring cstring pascal greedystring fmt float bytesint bitsint varint zigzag flag pass bytes bytesctx greedybytes const constv computed tell
 terminated error enum flagsenum mapping hex oneof noneof rebuildlen default struct seq focusedseq array arrayctx greedyrange
 prefixedarray repeatuntil prefixed fixedsized nullterminated nullstripped padded aligned if ifthenelse switch select optional
 bitwise bytewise byteswapped bitsswapped xor rawcopy peek pointer raw""".split())
